@@ -7,6 +7,8 @@ CONSTANTS
     ColSets = {{"k", "x"}, {"x", "q"}}
     Kinds = {"time_course"}
     FailModes = {"intfail"}
+    Y0s = {0, 9}
+    Y0Again = FALSE
     MaxDur = 1
     SharedInSeq = FALSE
     Timed = FALSE
